@@ -1,8 +1,9 @@
 (* Proofs for Model/FsModel.v (C19), third part (audit defect A8): stale independence of
    PROBING programs `wrapP O' cid core` between a STALE file system (every path of O' is a
    file an earlier run left) and a FRESH one (every path of O' is absent).  The two runs
-   differ: the fresh one probes (`Create p true cid; Unlink p` after a flagged Stat on p that
-   answered "absent").  Direction: acceptance on the stale file system implies acceptance on
+   differ: the fresh one probes (k further `Stat p _`, then `Create p true cid; Unlink p`, after a
+   flagged Stat on p that answered "absent"; k is a parameter of the wrapper, the theorem is for
+   every k: k = 1 is the real run_mapping, audit 4 A3).  Direction: acceptance on the stale file system implies acceptance on
    the fresh one (the fresh run has the more permissive book-keeping: a probed output is
    `owned`, an output created where it was absent is `new`); the converse is false
    (Props/C19.v: the ex_probe_direction examples).
@@ -447,33 +448,74 @@ Proof.
 Qed.
 
 (* ------------------------------------------------------------------ the two program runs *)
-Variables (cid : Z) (cr : pcore).
+Variables (cid : Z) (k : nat) (cr : pcore).
 
-Lemma pstate_snoc : forall h x, pstate O' cid cr (h ++ [x]) = pfeed O' cid cr (pstate O' cid cr h) x.
+Lemma pstate_snoc : forall h x, pstate O' cid k cr (h ++ [x]) = pfeed O' cid k cr (pstate O' cid k cr h) x.
 Proof. intros. unfold pstate. rewrite fold_left_app. reflexivity. Qed.
 
-Lemma wrapP_at : forall h s, pstate O' cid cr h = s -> wrapP O' cid cr h = pnext cr s.
+Lemma wrapP_at : forall h s, pstate O' cid k cr h = s -> wrapP O' cid k cr h = pnext cr s.
 Proof. intros h s <-. reflexivity. Qed.
 
 Lemma pfeed_plain : forall eh o fl x, cr eh = (o, fl) -> hidden O' o = false ->
-  pfeed O' cid cr (eh, []) x = (eh ++ [x], []).
+  pfeed O' cid k cr (eh, []) x = (eh ++ [x], []).
 Proof.
   intros eh o fl x C Hh. unfold pfeed. cbn [fst snd]. rewrite C.
   destruct o; try reflexivity. simpl in Hh. rewrite Hh. reflexivity.
 Qed.
 
 Lemma pfeed_hidden : forall eh p r fl x, cr eh = (Stat p r, fl) -> mem p O' = true ->
-  pfeed O' cid cr (eh, []) x =
-  (eh ++ [OKind PExists], if fl && is_absent x then [Create p true cid; Unlink p] else []).
+  pfeed O' cid k cr (eh, []) x =
+  (eh ++ [OKind PExists], if fl && is_absent x then probe_ops cid k p else []).
 Proof. intros eh p r fl x C M. unfold pfeed. cbn [fst snd]. rewrite C, M. reflexivity. Qed.
+
+Lemma erase_repeat_stat : forall p r j t, mem p O' = true ->
+  erase O' (repeat (Stat p r) j ++ t) = erase O' t.
+Proof.
+  intros p r j t M. induction j as [|j IH]; [reflexivity|].
+  cbn [repeat app]. rewrite erase_hidden by assumption. exact IH.
+Qed.
+
+Lemma fresh_repeat_stat : forall p r j t,
+  fresh_names c (repeat (Stat p r) j ++ t) = fresh_names c t.
+Proof.
+  intros p r j t. induction j as [|j IH]; [reflexivity|].
+  cbn [repeat app]. rewrite fresh_cons. cbn [op_fresh]. simpl. exact IH.
+Qed.
+
+(* the j further looks of the fresh run at the path it is about to probe: j accepted Stat
+   operations that change nothing; their answers do not enter the erased history *)
+Lemma pending_stats : forall j p fa ba ha eh rest,
+  b_done ba = false -> statable c ba p = true ->
+  pstate O' cid k cr ha = (eh, repeat (Stat p PAbsent) j ++ rest) ->
+  exists ha1, pstate O' cid k cr ha1 = (eh, rest) /\
+    forall m ga ba' ta ha',
+      prun c (wrapP O' cid k cr) m fa ba ha1 = Ok (ga, ba', ta, ha') ->
+      prun c (wrapP O' cid k cr) (j + m) fa ba ha =
+        Ok (ga, ba', repeat (Stat p (kind_of (lookup fa p))) j ++ ta, ha').
+Proof.
+  induction j as [|j IH]; intros p fa ba ha eh rest Dn St Sa.
+  - exists ha. split; [exact Sa|]. intros m ga ba' ta ha' H. exact H.
+  - cbn [repeat app] in Sa.
+    assert (P0 : wrapP O' cid k cr ha = Stat p PAbsent) by (rewrite (wrapP_at ha _ Sa); reflexivity).
+    assert (Sa1 : pstate O' cid k cr (ha ++ [OKind (kind_of (lookup fa p))]) =
+                  (eh, repeat (Stat p PAbsent) j ++ rest)).
+    { rewrite pstate_snoc, Sa. reflexivity. }
+    destruct (IH p fa ba _ eh rest Dn St Sa1) as [ha1 [S1 K]].
+    exists ha1. split; [exact S1|]. intros m ga ba' ta ha' H.
+    specialize (K m ga ba' ta ha' H).
+    pose proof (prun_step c (wrapP O' cid k cr) (j + m) fa ba ha fa ba ga ba'
+                  (repeat (Stat p (kind_of (lookup fa p))) j ++ ta) ha') as Q.
+    rewrite P0 in Q. cbn [fill observe] in Q.
+    exact (Q Dn (step_stat_ok c fa ba p Dn St) K).
+Qed.
 
 Lemma prun_sim2 : forall n fa ba ha fb bb hb eh gb bb' tb hb',
   R fa ba fb bb ->
-  pstate O' cid cr ha = (eh, []) -> pstate O' cid cr hb = (eh, []) ->
+  pstate O' cid k cr ha = (eh, []) -> pstate O' cid k cr hb = (eh, []) ->
   incl (fresh_names c tb) N ->
-  prun c (wrapP O' cid cr) n fb bb hb = Ok (gb, bb', tb, hb') ->
-  exists m ga ba' ta ha', (m <= 3 * n)%nat /\
-    prun c (wrapP O' cid cr) m fa ba ha = Ok (ga, ba', ta, ha') /\ R ga ba' gb bb' /\
+  prun c (wrapP O' cid k cr) n fb bb hb = Ok (gb, bb', tb, hb') ->
+  exists m ga ba' ta ha', (m <= (3 + k) * n)%nat /\
+    prun c (wrapP O' cid k cr) m fa ba ha = Ok (ga, ba', ta, ha') /\ R ga ba' gb bb' /\
     erase O' ta = erase O' tb /\ fresh_names c ta = fresh_names c tb /\
     headok O' ta /\ headok O' tb.
 Proof.
@@ -488,21 +530,22 @@ Proof.
     rewrite (wrapP_at hb _ Sb) in H. unfold pnext in H. cbn [fst snd] in H.
     destruct (cr eh) as [o fl] eqn:C. cbn [fst] in H.
     destruct (step c fb bb (fill fb o)) as [[fb1 bb1]|code] eqn:St; [|discriminate].
-    destruct (prun c (wrapP O' cid cr) n fb1 bb1 (hb ++ [observe fb (fill fb o)]))
+    destruct (prun c (wrapP O' cid k cr) n fb1 bb1 (hb ++ [observe fb (fill fb o)]))
       as [[[[g1 b2] t1] h2]|code] eqn:Rn; [|discriminate].
     injection H as E1 E2 E3 E4. subst gb bb' tb hb'. rewrite fresh_cons in Hn.
     pose proof (incl_app_l _ _ _ _ Hn) as Hno. pose proof (incl_app_r _ _ _ _ Hn) as Hnt.
-    assert (PA : wrapP O' cid cr ha = o).
+    assert (PA : wrapP O' cid k cr ha = o).
     { rewrite (wrapP_at ha _ Sa). unfold pnext. cbn [fst snd]. rewrite C. reflexivity. }
+    assert (Hmul : ((3 + k) * S n = (3 + k) * n + 3 + k)%nat) by (rewrite Nat.mul_succ_r; lia).
     destruct (hidden O' o) eqn:Hh.
     + (* a Stat on O': the answers differ; the fresh side may probe *)
-      destruct o as [x|x k|x t k|x|x|x|x y|x|ok|p r]; try discriminate Hh. simpl in Hh.
+      destruct o as [x|x k0|x t k0|x|x|x|x y|x|ok|p r]; try discriminate Hh. simpl in Hh.
       cbn [fill observe] in *.
       apply step_stat_inv in St. destruct St as [-> ->].
       pose proof Hh as Hp. apply mem_In in Hp.
       pose proof HR as [_ [_ [_ [_ R5]]]]. destruct (R5 p Hp) as [_ [F _]].
       apply is_file_kind in F. rewrite F in Rn.
-      assert (Sb1 : pstate O' cid cr (hb ++ [OKind PFile]) = (eh ++ [OKind PExists], [])).
+      assert (Sb1 : pstate O' cid k cr (hb ++ [OKind PFile]) = (eh ++ [OKind PExists], [])).
       { rewrite pstate_snoc, Sb, (pfeed_hidden eh p r fl _ C Hh). cbn [is_absent].
         rewrite andb_false_r. reflexivity. }
       assert (Sta : statable c ba p = true).
@@ -511,35 +554,43 @@ Proof.
       pose proof (pstate_snoc ha (OKind (kind_of (lookup fa p)))) as Sa1.
       rewrite Sa, (pfeed_hidden eh p r fl _ C Hh) in Sa1.
       destruct (fl && is_absent (OKind (kind_of (lookup fa p)))) eqn:FP.
-      * (* probe *)
+      * (* probe: k further looks, the creation, the removal *)
         apply andb_true_iff in FP. destruct FP as [_ FP]. cbn [is_absent] in FP.
         assert (Hl : lookup fa p = None).
         { apply kind_of_absent. destruct (kind_of (lookup fa p)); try discriminate. reflexivity. }
         destruct (probe_steps cid fa ba fb bb p HR Hp Hl Dna) as [f1 [ba1 [f2 [ba2 [S1 [S2 HR2]]]]]].
-        set (ha1 := ha ++ [OKind (kind_of (lookup fa p))]) in *.
-        assert (P1 : wrapP O' cid cr ha1 = Create p true cid) by (rewrite (wrapP_at ha1 _ Sa1); reflexivity).
-        assert (Sa2 : pstate O' cid cr (ha1 ++ [ONone]) = (eh ++ [OKind PExists], [Unlink p])).
-        { rewrite pstate_snoc, Sa1. reflexivity. }
-        assert (P2 : wrapP O' cid cr (ha1 ++ [ONone]) = Unlink p) by (rewrite (wrapP_at _ _ Sa2); reflexivity).
-        assert (Sa3 : pstate O' cid cr ((ha1 ++ [ONone]) ++ [ONone]) = (eh ++ [OKind PExists], [])).
+        set (ha0 := ha ++ [OKind (kind_of (lookup fa p))]) in *.
+        unfold probe_ops in Sa1.
+        destruct (pending_stats k p fa ba ha0 _ _ Dna Sta Sa1) as [ha1 [Sa1' KK]].
+        assert (P1 : wrapP O' cid k cr ha1 = Create p true cid) by (rewrite (wrapP_at ha1 _ Sa1'); reflexivity).
+        assert (Sa2 : pstate O' cid k cr (ha1 ++ [ONone]) = (eh ++ [OKind PExists], [Unlink p])).
+        { rewrite pstate_snoc, Sa1'. reflexivity. }
+        assert (P2 : wrapP O' cid k cr (ha1 ++ [ONone]) = Unlink p) by (rewrite (wrapP_at _ _ Sa2); reflexivity).
+        assert (Sa3 : pstate O' cid k cr ((ha1 ++ [ONone]) ++ [ONone]) = (eh ++ [OKind PExists], [])).
         { rewrite pstate_snoc, Sa2. reflexivity. }
         destruct (IH f2 ba2 _ fb bb _ _ g1 b2 t1 h2 HR2 Sa3 Sb1 Hnt Rn)
           as [m [ga [ba' [ta [ha' [Lm [Ra [HR' [Er [Fr [Ha Hb]]]]]]]]]]].
         assert (Dn1 : b_done ba1 = false).
         { apply step_decide in S1. destruct S1 as [e1 [D1 _]].
           apply step_decide in S2. destruct S2 as [e2 [D2 _]]. eapply decide_not_done; eauto. }
-        exists (S (S (S m))), ga, ba'.
-        exists (Stat p (kind_of (lookup fa p)) :: Create p true cid :: Unlink p :: ta), ha'.
+        exists (S (k + S (S m))), ga, ba'.
+        exists (Stat p (kind_of (lookup fa p)) ::
+                repeat (Stat p (kind_of (lookup fa p))) k ++ Create p true cid :: Unlink p :: ta), ha'.
         split; [lia|]. split; [|split; [assumption|]].
-        -- pose proof (prun_step c (wrapP O' cid cr) m f1 ba1 (ha1 ++ [ONone]) f2 ba2 ga ba' ta ha') as Q2.
+        -- pose proof (prun_step c (wrapP O' cid k cr) m f1 ba1 (ha1 ++ [ONone]) f2 ba2 ga ba' ta ha') as Q2.
            rewrite P2 in Q2. cbn [fill observe] in Q2. specialize (Q2 Dn1 S2 Ra).
-           pose proof (prun_step c (wrapP O' cid cr) (S m) fa ba ha1 f1 ba1 ga ba' (Unlink p :: ta) ha') as Q1.
+           pose proof (prun_step c (wrapP O' cid k cr) (S m) fa ba ha1 f1 ba1 ga ba' (Unlink p :: ta) ha') as Q1.
            rewrite P1 in Q1. cbn [fill observe] in Q1. specialize (Q1 Dna S1 Q2).
-           pose proof (prun_step c (wrapP O' cid cr) (S (S m)) fa ba ha fa ba ga ba' (Create p true cid :: Unlink p :: ta) ha') as Q0.
-           rewrite PA in Q0. cbn [fill observe] in Q0. exact (Q0 Dna S0 Q1).
+           pose proof (KK _ _ _ _ _ Q1) as QK.
+           pose proof (prun_step c (wrapP O' cid k cr) (k + S (S m)) fa ba ha fa ba ga ba'
+                         (repeat (Stat p (kind_of (lookup fa p))) k ++ Create p true cid :: Unlink p :: ta) ha') as Q0.
+           rewrite PA in Q0. cbn [fill observe] in Q0. exact (Q0 Dna S0 QK).
         -- split; [|split; [|split; exact Logic.I]].
-           ++ rewrite erase_probe, erase_hidden by assumption. assumption.
+           ++ rewrite erase_hidden by assumption. rewrite erase_repeat_stat by assumption.
+              cbn [erase]. rewrite Hh, path_eqb_refl. cbn [andb].
+              rewrite ?erase_hidden by assumption. assumption.
            ++ destruct (O_facts p Hp) as [Ho _].
+              rewrite fresh_cons. cbn [op_fresh]. cbn [app]. rewrite fresh_repeat_stat.
               rewrite !fresh_cons. cbn [op_fresh].
               rewrite (top_name_outside c p) by (apply outside_scratch_spec; auto). simpl. assumption.
       * (* no probe *)
@@ -547,7 +598,7 @@ Proof.
           as [m [ga [ba' [ta [ha' [Lm [Ra [HR' [Er [Fr [Ha Hb]]]]]]]]]]].
         exists (S m), ga, ba', (Stat p (kind_of (lookup fa p)) :: ta), ha'.
         split; [lia|]. split; [|split; [assumption|]].
-        -- pose proof (prun_step c (wrapP O' cid cr) m fa ba ha fa ba ga ba' ta ha') as Q0.
+        -- pose proof (prun_step c (wrapP O' cid k cr) m fa ba ha fa ba ga ba' ta ha') as Q0.
            rewrite PA in Q0. cbn [fill observe] in Q0. exact (Q0 Dna S0 Ra).
         -- split; [|split; [|split; exact Logic.I]].
            ++ rewrite !erase_hidden by assumption. assumption.
@@ -556,15 +607,15 @@ Proof.
       assert (Hh' : hidden O' (fill fb o) = false) by (rewrite hidden_fill; assumption).
       destruct (observe_sim2 fa ba fb bb o fb1 bb1 HR Hno Hh St) as [EF EO].
       destruct (step_sim2 fa ba fb bb (fill fb o) fb1 bb1 HR Hno Hh' St) as [fa1 [ba1 [S' HR1]]].
-      assert (Sb1 : pstate O' cid cr (hb ++ [observe fb (fill fb o)]) = (eh ++ [observe fb (fill fb o)], [])).
+      assert (Sb1 : pstate O' cid k cr (hb ++ [observe fb (fill fb o)]) = (eh ++ [observe fb (fill fb o)], [])).
       { rewrite pstate_snoc, Sb. eapply pfeed_plain; eauto. }
-      assert (Sa1 : pstate O' cid cr (ha ++ [observe fb (fill fb o)]) = (eh ++ [observe fb (fill fb o)], [])).
+      assert (Sa1 : pstate O' cid k cr (ha ++ [observe fb (fill fb o)]) = (eh ++ [observe fb (fill fb o)], [])).
       { rewrite pstate_snoc, Sa. eapply pfeed_plain; eauto. }
       destruct (IH fa1 ba1 _ fb1 bb1 _ _ g1 b2 t1 h2 HR1 Sa1 Sb1 Hnt Rn)
         as [m [ga [ba' [ta [ha' [Lm [Ra [HR' [Er [Fr [Ha Hb]]]]]]]]]]].
       exists (S m), ga, ba', (fill fb o :: ta), ha'.
       split; [lia|]. split; [|split; [assumption|]].
-      * pose proof (prun_step c (wrapP O' cid cr) m fa ba ha fa1 ba1 ga ba' ta ha') as Q0.
+      * pose proof (prun_step c (wrapP O' cid k cr) m fa ba ha fa1 ba1 ga ba' ta ha') as Q0.
         rewrite PA, EF, EO in Q0. exact (Q0 Dna S' Ra).
       * split; [|split; [|split]].
         -- rewrite !erase_cons by assumption. f_equal. assumption.
@@ -581,22 +632,22 @@ End Probe.
 (* f2 STALE: every path of O' is a file an earlier run left; f1 FRESH: every path of O' is
    absent.  Otherwise as in stale_independence_program_thm (kinds agree on the declared paths
    and their ancestors OUTSIDE O').  If the run of the probing program on the stale file
-   system is accepted, then its run on the fresh one is accepted (within 3 * fuel
-   operations), the two traces are equal up to the Stat operations on O' and the probes, the
+   system is accepted, then its run on the fresh one is accepted (within (3 + k) * fuel
+   operations, k the number of further looks before the probe), the two traces are equal up to the Stat operations on O' and the probes, the
    runs make the same names in the scratch root, every declared output ends up the same (or
    untouched in each), and everything else outside the run's scratch names is untouched. *)
-Theorem stale_independence_up_to_probes_thm : forall c O' cid cr fuel f1 f2 g2 t2 h2,
+Theorem stale_independence_up_to_probes_thm : forall c O' cid k cr fuel f1 f2 g2 t2 h2,
   outside_scratch c = true -> mem (c_query c) (c_outputs c) = false ->
   incl O' (c_outputs c) ->
   (forall p, In p (c_inputs c) -> lookup f1 p = lookup f2 p) ->
   (c_obsm c = true -> lookup f1 (c_query c) = lookup f2 (c_query c)) ->
   (forall p, kregion c p = true -> ~ In p O' -> kind_of (lookup f1 p) = kind_of (lookup f2 p)) ->
   (forall p, In p O' -> lookup f1 p = None /\ kind_of (lookup f2 p) = PFile) ->
-  paccept c (wrapP O' cid cr) fuel f2 g2 t2 h2 ->
+  paccept c (wrapP O' cid k cr) fuel f2 g2 t2 h2 ->
   (forall p, in_cone c (fresh_names c t2) p = true -> lookup f1 p = None /\ lookup f2 p = None) ->
   exists fuel1 g1 t1 h1,
-    (fuel1 <= 3 * fuel)%nat /\
-    paccept c (wrapP O' cid cr) fuel1 f1 g1 t1 h1 /\
+    (fuel1 <= (3 + k) * fuel)%nat /\
+    paccept c (wrapP O' cid k cr) fuel1 f1 g1 t1 h1 /\
     erase O' t1 = erase O' t2 /\
     fresh_names c t1 = fresh_names c t2 /\
     (forall o, In o (c_outputs c) ->
@@ -604,7 +655,7 @@ Theorem stale_independence_up_to_probes_thm : forall c O' cid cr fuel f1 f2 g2 t
     (forall p, in_cone c (fresh_names c t2) p = false -> ~ In p (c_outputs c) -> wq c p = false ->
        lookup g1 p = lookup f1 p /\ lookup g2 p = lookup f2 p).
 Proof.
-  intros c O' cid cr fuel f1 f2 g2 t2 h2 Hout Hq HO Hin Hqq Hk HOs [b2 [R2 D2]] Hcone.
+  intros c O' cid k cr fuel f1 f2 g2 t2 h2 Hout Hq HO Hin Hqq Hk HOs [b2 [R2 D2]] Hcone.
   set (N := fresh_names c t2) in *.
   assert (HR : R c N O' f1 bk0 f2 bk0).
   { unfold R. split; [|split; [apply inv_bk0|split; [|split]]].
@@ -617,7 +668,7 @@ Proof.
     - assumption.
     - intros p Hp. destruct (HOs p Hp) as [A B]. simpl. split; [auto|]. split; [|auto].
       apply is_file_kind. assumption. }
-  destruct (prun_sim2 c N O' Hout Hq HO cid cr fuel f1 bk0 [] f2 bk0 [] [] g2 b2 t2 h2 HR
+  destruct (prun_sim2 c N O' Hout Hq HO cid k cr fuel f1 bk0 [] f2 bk0 [] [] g2 b2 t2 h2 HR
               eq_refl eq_refl (incl_refl _) R2)
     as [m [g1 [b1 [t1 [h1 [Lm [R1 [HR' [Er [Fr [_ _]]]]]]]]]]].
   pose proof HR' as [[B1 [B2 [B3 [B4 [B5 [B6 B7]]]]]] [Hi2 [R3 [R4 R5]]]].
